@@ -4,6 +4,9 @@ pub mod c06;
 pub mod c07;
 pub mod c08;
 pub mod c09;
+pub mod c10;
+pub mod c11;
+pub mod c12;
 #[cfg(feature = "jit")]
 pub mod pair;
 #[cfg(feature = "jit")]
@@ -19,6 +22,9 @@ pub fn registry() -> Vec<Monitor> {
     Monitor { name: "c07", run: c07::run, resumable: true, on_crash: c07::on_crash },
     Monitor { name: "c08", run: c08::run, resumable: true, on_crash: c08::on_crash },
     Monitor { name: "c09", run: c09::run, resumable: true, on_crash: c09::on_crash },
+    Monitor { name: "c10", run: c10::run, resumable: true, on_crash: c10::on_crash },
+    Monitor { name: "c11", run: c11::run, resumable: true, on_crash: c11::on_crash },
+    Monitor { name: "c12", run: c12::run, resumable: true, on_crash: c12::on_crash },
   ];
   #[cfg(feature = "jit")]
   {
